@@ -28,36 +28,12 @@ def wcfg(cfg):
 
 
 def ev_res(node, env):
-    """restricted evaluator of residue expressions: names, ints, %, ==, !=, and/or/not, +, -, *, //"""
-    if isinstance(node, ast.Constant):
-        return node.value
-    if isinstance(node, ast.Name):
-        return env[node.id]
-    if isinstance(node, ast.BinOp):
-        a, b = ev_res(node.left, env), ev_res(node.right, env)
-        if isinstance(node.op, ast.Mod):
-            return a % b
-        if isinstance(node.op, ast.Add):
-            return a + b
-        if isinstance(node.op, ast.Sub):
-            return a - b
-        if isinstance(node.op, ast.Mult):
-            return a * b
-        if isinstance(node.op, ast.FloorDiv):
-            return a // b
-        raise ValueError("operator")
-    if isinstance(node, ast.UnaryOp) and isinstance(node.op, ast.Not):
-        return not ev_res(node.operand, env)
-    if isinstance(node, ast.UnaryOp) and isinstance(node.op, ast.USub):
-        return -ev_res(node.operand, env)
-    if isinstance(node, ast.BoolOp):
-        vals = [ev_res(v, env) for v in node.values]
-        return all(vals) if isinstance(node.op, ast.And) else any(vals)
-    if isinstance(node, ast.Compare) and len(node.ops) == 1:
-        a, b = ev_res(node.left, env), ev_res(node.comparators[0], env)
-        op = node.ops[0]
-        return {ast.Eq: a == b, ast.NotEq: a != b, ast.Lt: a < b, ast.LtE: a <= b, ast.Gt: a > b, ast.GtE: a >= b}[type(op)]
-    raise ValueError("unsupported residue expression %s" % ast.dump(node)[:60])
+    """restricted evaluator of residue expressions (see common.ev_small)"""
+    from .common import ev_small, Unevaluable
+    try:
+        return ev_small(node, env)
+    except Unevaluable as e:
+        raise ValueError(str(e))
 
 
 def run(chk):
@@ -149,7 +125,14 @@ def run(chk):
                 and norm_text(n.test.left.left) == pn and isinstance(n.test.left.right, ast.Constant) and isinstance(n.test.comparators[0], ast.Constant) and isinstance(n.test.ops[0], ast.Eq):
             mod_, res_ = n.test.left.right.value, n.test.comparators[0].value
             nbr += 1
-            for x in ast.walk(n):
+            scope = [n]
+            for c_ in ast.walk(n):
+                if isinstance(c_, ast.Call) and isinstance(c_.func, ast.Name) and W.owners.get("numbertheory:" + c_.func.id) == q:
+                    hf_ = W.p.func("numbertheory:" + c_.func.id)
+                    # the helper receives p under its own parameter name
+                    if [norm_text(a_) for a_ in c_.args] == f.params[:len(c_.args)] and hf_.params[:len(c_.args)] == f.params[:len(c_.args)]:
+                        scope.append(hf_.node)
+            for x in [y for sc_ in scope for y in ast.walk(sc_)]:
                 if isinstance(x, ast.BinOp) and isinstance(x.op, ast.FloorDiv) and isinstance(x.right, ast.Constant) and pn in {y.id for y in ast.walk(x.left) if isinstance(y, ast.Name)}:
                     d = x.right.value
                     exact = mod_ % d == 0 and ev_res(x.left, {pn: res_}) % d == 0
@@ -157,7 +140,8 @@ def run(chk):
                            key="C15|R15.2|exp|%d-%d|%s" % (mod_, res_, norm_text(x)), detail="in the branch p = %d mod %d the division %s is not exact (wrong exponent for this residue class)" % (res_, mod_, norm_text(x)))
     chk.floor("R15.2", "residue-class branches of square_root_mod_prime", nbr, 2)
     # the remaining class (p = 1 mod 8) uses (p + 1) // 2 in the polynomial branch: exact for odd p
-    pb = [x for x in ast.walk(f.node) if isinstance(x, ast.Call) and norm_text(x.func) == "polynomial_exp_mod"]
+    owned_nodes = [f.node] + [W.p.func(h_).node for h_, o_ in W.owners.items() if o_ == q]
+    pb = [x for fn_ in owned_nodes for x in ast.walk(fn_) if isinstance(x, ast.Call) and norm_text(x.func) == "polynomial_exp_mod"]
     okpb = len(pb) == 1 and norm_text(pb[0].args[1]) in ("(%s + 1) // 2" % pn,)
     chk.ob("R15.2", "polynomial branch raises x to (p + 1) // 2", okpb, loc=q, key="C15|R15.2|poly-exp", detail="exponent of the polynomial branch is %s" % (norm_text(pb[0].args[1]) if pb else None))
 
@@ -188,18 +172,20 @@ def run(chk):
         okodd &= any(i is not None for i in inits) or (("%s = %s" % (a1, an)) in sep and ("%s = 0" % Bl["L_e"]) in sep)
     red = any(isinstance(s, ast.Assign) and norm_text(s) == "%s = %s %% %s" % (an, an, nn) for s in jf.node.body)
     chk.ob("R15.3", "jacobi: a reduced mod n first; a1 = odd part of a with e counting the halvings (from a1 = a, e = 0)", okodd and red, loc=jq, key="C15|R15.3|oddpart", detail="odd-part loop / its initialisation / the initial reduction not as expected")
-    # sign tables
+    # sign tables: `if T: s = 1 else: s = -1` / `s = 1 if T else -1` (either polarity); `if U: s = -s`
     t1 = t2 = None
+    t1_pos = True          # T true  <=>  s = +1
     sname = None
     for s in ast.walk(jf.node):
-        if not isinstance(s, ast.If):
-            continue
-        b1 = pat.match("if X_t:\n    L_s = 1\nelse:\n    L_s = -1", s, Bl or {})
-        if b1 is not None:
-            t1, sname = b1["X_t"], b1["L_s"]
+        for form, pos in (("if X_t:\n    L_s = 1\nelse:\n    L_s = -1", True), ("if X_t:\n    L_s = -1\nelse:\n    L_s = 1", False),
+                          ("L_s = 1 if X_t else -1", True), ("L_s = -1 if X_t else 1", False)):
+            if isinstance(s, (ast.If, ast.Assign)):
+                b1 = pat.match(form, s, Bl or {})
+                if b1 is not None:
+                    t1, sname, t1_pos = b1["X_t"], b1["L_s"], pos
     for s in ast.walk(jf.node):
-        if isinstance(s, ast.If) and sname:
-            b2 = pat.match("if X_u:\n    L_s = -L_s", s, {"L_s": sname})
+        if isinstance(s, (ast.If, ast.Assign)) and sname:
+            b2 = pat.any_of(s, ["if X_u:\n    L_s = -L_s", "L_s = -L_s if X_u else L_s"], {"L_s": sname})
             if b2 is not None:
                 t2 = b2["X_u"]
     ok1 = ok2 = False
@@ -210,7 +196,7 @@ def run(chk):
             for r8 in (1, 3, 5, 7):
                 want = (e % 2 == 0) or r8 in (1, 7)          # (2/n)^e
                 try:
-                    ok1 &= bool(ev_res(t1, {en: e, nn: r8})) == want
+                    ok1 &= (bool(ev_res(t1, {en: e, nn: r8})) == t1_pos) == want
                 except (KeyError, ValueError):
                     ok1 = False
     if t2 is not None and a1:
